@@ -216,17 +216,18 @@ class ClassInfo(object):
 
 
 class Module(object):
-  def __init__(self, repo, name, relpath, source):
+  def __init__(self, repo, name, relpath, source, tree=None):
     self.repo = repo
     self.name = name
     self.relpath = relpath
     self.source = source
     self.digest = hashlib.sha256(source.encode('utf-8')).hexdigest()
-    try:
-      tree = ast.parse(source, relpath)
-    except SyntaxError as e:
-      raise AnalysisError('unit %s does not parse: %s' % (relpath, e))
-    tree = _FoldPy3().visit(tree)
+    if tree is None:
+      try:
+        tree = ast.parse(source, relpath)
+      except SyntaxError as e:
+        raise AnalysisError('unit %s does not parse: %s' % (relpath, e))
+      tree = _FoldPy3().visit(tree)
     ast.fix_missing_locations(tree)
     set_parents(tree)
     self.tree = tree
@@ -298,6 +299,8 @@ class Module(object):
     variants = self.functions.setdefault(qualname, [])
     fi = FunctionInfo(self, qualname, node, cls, parent_fn, len(variants) if variant is None else variant, guard)
     variants.append(fi)
+    node._fi = (qualname, len(variants) - 1)
+    fi.inlined_from = list(getattr(node, '_inlined_from', ()))
     # nested functions and lambdas
     for n in walk_no_nested(node, include_self=False):
       if isinstance(n, (ast.FunctionDef, ast.AsyncFunctionDef)):
@@ -353,9 +356,10 @@ UNIT_PATTERNS = [
 
 
 class Repo(object):
-  def __init__(self, root=None, overlay=None):
+  def __init__(self, root=None, overlay=None, trees=None):
     self.root = root or repo_root()
     self.overlay = dict(overlay or {})
+    self.trees = dict(trees or {})     # relpath -> already-normalised ast.Module (see sa/inline.py: normalise)
     self.modules = {}
     self.by_relpath = {}
     self._load()
@@ -380,7 +384,7 @@ class Repo(object):
         with open(os.path.join(self.root, rel), encoding='utf-8') as f:
           src = f.read()
       name = self._modname(rel)
-      m = Module(self, name, rel, src)
+      m = Module(self, name, rel, src, self.trees.get(rel))
       self.modules[name] = m
       self.by_relpath[rel] = m
 
